@@ -94,8 +94,10 @@ def main(repo):
         cur = current(repo)
         if not os.path.exists(FRAME): U('frame file missing')
         if cur != open(FRAME).read(): U('NixSourceCode._resolve_target_set no longer has the text the model was written from')
-        return COQ
-    return guarded('NixSourceCode._resolve_target_set', gen)
+        return ''
+    # when the frame no longer matches, the marker fails the obligation, and the LAST model is still emitted so that the correspondence can look for a
+    # document on which the changed function and the model disagree
+    return guarded('NixSourceCode._resolve_target_set', gen) + COQ
 if __name__ == '__main__':
     if len(sys.argv) > 2 and sys.argv[2] == '--record': open(FRAME, 'w').write(current(sys.argv[1])); print('recorded')
     else: print(main(sys.argv[1]))
